@@ -18,6 +18,7 @@ import (
 	"strings"
 	"time"
 
+	"github.com/nginx/kubernetes-ingress/internal/k8s"
 	"github.com/nginx/kubernetes-ingress/internal/k8s/appprotect"
 	"github.com/nginx/kubernetes-ingress/internal/k8s/appprotectcommon"
 	"github.com/nginx/kubernetes-ingress/internal/k8s/appprotectdos"
@@ -67,6 +68,9 @@ type Op struct {
 	LogDest  string `json:"log_dest,omitempty"`
 	PrEnable bool   `json:"pr_enable,omitempty"`  // spec.enable
 	LogEn    bool   `json:"log_enable,omitempty"` // spec.dosSecurityLog.enable
+	// APUserSig deleted and re-created under the same name (new uid / creation time, same spec) and
+	// delivered as ONE update (the work queue is keyed by kind+name): marker for the statistics only
+	Recreate bool `json:"recreate,omitempty"`
 	// oracle: verdict of the real validator on the object built from this op (filled by run)
 	Valid bool `json:"valid"`
 }
@@ -521,6 +525,73 @@ func probeVariant(l *slog.Logger) bool {
 	return err == nil
 }
 
+// CtlStep is what the user-signature folder looks like after one WAF operation went through the
+// controller: the sets index.conf lists and the files that exist, as namespace/name keys.
+type CtlStep struct {
+	Ld []string `json:"ld"`
+	Fl []string `json:"fl"`
+}
+
+type CtlObs struct {
+	Order []int     `json:"order"`
+	Steps []CtlStep `json:"steps"`
+	Panic string    `json:"panic,omitempty"`
+}
+
+func fileKeys(fs []string) []string {
+	out := []string{}
+	for _, f := range fs {
+		out = append(out, strings.Replace(f, "_", "/", 1))
+	}
+	sort.Strings(out)
+	return out
+}
+
+// runCtl drives the WAF operations of the history (in the generated order) through the real
+// controller path: APUserSig events through syncAppProtectUserSig (store + work item), APPolicy /
+// APLogConf directly into the controller's appprotect.Configuration.
+func runCtl(c *Case) (co CtlObs) {
+	defer func() {
+		if r := recover(); r != nil {
+			co.Panic = fmt.Sprint(r)
+		}
+	}()
+	v := k8s.VerifC19New()
+	for idx := range c.Hist {
+		op := &c.Hist[idx]
+		if op.K > 2 {
+			continue
+		}
+		key := op.Ns + "/" + op.Name
+		switch op.K {
+		case 0:
+			if op.Del {
+				v.Config().DeletePolicy(key)
+			} else {
+				v.Config().AddOrUpdatePolicy(buildUnstructured(op))
+			}
+		case 1:
+			if op.Del {
+				v.Config().DeleteLogConf(key)
+			} else {
+				v.Config().AddOrUpdateLogConf(buildUnstructured(op))
+			}
+		case 2:
+			if op.Del {
+				v.SyncUserSig(key, nil)
+			} else {
+				v.SyncUserSig(key, buildUnstructured(op))
+			}
+		}
+		co.Order = append(co.Order, idx)
+		co.Steps = append(co.Steps, CtlStep{Ld: fileKeys(v.Loaded()), Fl: fileKeys(v.Files())})
+	}
+	if co.Order == nil {
+		co.Order, co.Steps = []int{}, []CtlStep{}
+	}
+	return co
+}
+
 func runCase(c *Case, l *slog.Logger) {
 	c.Fx = probeVariant(l)
 	for i := range c.Hist {
@@ -542,7 +613,12 @@ func runCase(c *Case, l *slog.Logger) {
 			return
 		}
 	}
-	c.Obs = map[string]any{"runs": runs}
+	ctl := runCtl(c)
+	if ctl.Panic != "" {
+		c.Obs = map[string]any{"panic": "controller path: " + ctl.Panic, "runs": runs}
+		return
+	}
+	c.Obs = map[string]any{"runs": runs, "ctl": ctl}
 }
 
 // ---------------------------------------------------------------- generators
@@ -551,6 +627,7 @@ type inc struct {
 	exists bool
 	uid    string
 	ts     int64
+	last   *Op // last add/update of this incarnation (APUserSig only)
 }
 
 func genTF(r *vh.Rng, pAbsent, pBad int) TF {
@@ -664,7 +741,22 @@ func genHistory(r *vh.Rng, id int, malformed bool, family int) Case {
 		if r.Chance(delp, 100) {
 			op.Del = true
 			st.exists = false
+			st.last = nil
 			c.Hist = append(c.Hist, op)
+			continue
+		}
+		if op.K == 2 && st.exists && st.last != nil && r.Chance(18, 100) {
+			// delete + re-create under the same name collapsed into one update: new uid, new creation
+			// time, same tag / revision / signatures
+			counter++
+			re := *st.last
+			re.Recreate = true
+			re.UID = fmt.Sprintf("%c%c-%d", 'a'+byte(r.Intn(3)), 'a'+byte(r.Intn(3)), counter)
+			re.TS = vh.Pick(r, tpool[:4])
+			st.uid, st.ts = re.UID, re.TS
+			c.Hist = append(c.Hist, re)
+			cp := re
+			st.last = &cp
 			continue
 		}
 		if !st.exists { // a new incarnation: new uid (K1), creation time from a small pool (ties)
@@ -759,6 +851,10 @@ func genHistory(r *vh.Rng, id int, malformed bool, family int) Case {
 				}
 			}
 		}
+		if op.K == 2 {
+			cp := op
+			st.last = &cp
+		}
 		c.Hist = append(c.Hist, op)
 	}
 	np := 3
@@ -825,10 +921,24 @@ func corpus() []Case {
 	delPol := Op{K: 3, Ns: "n1", Name: "a", Del: true}
 	c2 := mk(2, "corpus-dos-disabled-log", []Op{prOff, dpol, dlog, dlogBad, dlog, delLog, dlog, delPol})
 	c2.Perms = [][]int{{1, 0, 2, 3, 4, 5, 6, 7}, {1, 2, 0, 3, 4, 5, 6, 7}}
+	// delete + re-create of n1/a delivered as one update: the re-created set is the youngest of t1 and must lose
+	sigB := Op{K: 2, Ns: "n1", Name: "b", UID: "ab-5", TS: tpool[1], WF: true, HasTag: true, Tag: "t1"}
+	sigA2 := sig
+	sigA2.UID, sigA2.TS, sigA2.Recreate = "ac-6", tpool[2], true
+	c3 := mk(3, "corpus-recreate", []Op{sig, sigB, sigA2})
+	c3.Perms = [][]int{{1, 0, 2}, {0, 2, 1}}
+	// the in-force set becomes empty: the last set is deleted; the last set becomes malformed
+	delA := Op{K: 2, Ns: "n1", Name: "a", Del: true}
+	sigBbad := sigB
+	sigBbad.WF = false
+	c4 := mk(4, "corpus-last-set-gone", []Op{sig, delA, sigB, sigBbad})
+	c4.Perms = [][]int{{2, 0, 1, 3}}
 	return []Case{
 		mk(0, "corpus-revtime", []Op{sig, pol}),
 		mk(1, "corpus-delete-absent", []Op{sig, delAbsent}),
 		c2,
+		c3,
+		c4,
 	}
 }
 
